@@ -302,3 +302,15 @@ def run(facts, rep, ctx):
     ef3_gd3(facts, rep)
     ts5(facts, rep)
     tb9(facts, rep)
+
+
+_run_before_round4 = run
+
+
+def run(facts, rep, ctx):
+    """rules added after the third seeding round (rules/round4.py)"""
+    _run_before_round4(facts, rep, ctx)
+    from . import round4
+    round4.ts11(facts, rep)
+    round4.ri6(facts, rep)
+
